@@ -167,6 +167,46 @@ func TestVerifC13(t *testing.T) {
 	} else {
 		r.Inconclusive("c13: cannot map 1.5 GiB of zero pages for the giant-id cases")
 	}
+	// a MESSAGE whose bit length crosses 32 bits (2^29 + 3 zero bytes from an untouched mapping). The
+	// digest of ZA || M comes from the model's compression function block by block; the signature the library makes
+	// over the message must be the standard's signature over that digest, and must verify through the message.
+	{
+		if big := hk.ZeroMap(1<<29+4096, false); big != nil {
+			l := 1<<29 + 3
+			za, _ := ref.SM2ZA([]byte("1234567812345678"), px0, py0)
+			h := ref.SM3IV
+			first := make([]byte, 64)
+			copy(first, za)
+			h = ref.SM3Compress(h, first)
+			zero := make([]byte, 64)
+			total := 32 + l
+			nfull := total / 64
+			for b := 1; b < nfull; b++ {
+				h = ref.SM3Compress(h, zero)
+			}
+			e := ref.SM3Continue(h, uint64(nfull)*64, zero[:total%64])
+			stream := rng.Bytes(32 * 6)
+			model := ref.SM2Sign(d0, e, stream)
+			var rr, ss []byte
+			var err error
+			p, msg, _, _ := hk.Try(func() { rr, ss, err = SignZa(newScript(stream), ref.B32(d0), za, big[:l]) })
+			d := hk.D{"message": "2^29+3 zero bytes", "za": hk.Hex(za), "model_e": hk.Hex(e), "r": hexOrNil(rr), "s": hexOrNil(ss), "err": errStr(err), "panic": msg}
+			if p || err != nil || model.R == nil || !bytes.Equal(rr, ref.B32(model.R)) || !bytes.Equal(ss, ref.B32(model.S)) {
+				r.Violation("signza-differs-from-model-on-message-of-2^29-bytes", d)
+			} else {
+				ok, verr := VerifyZa(px0, py0, za, big[:l], rr, ss)
+				ok2, _ := VerifyZa(px0, py0, za, big[:l-1], rr, ss)
+				if !ok || verr != nil || ok2 {
+					d["verify"], d["verify_err"], d["verify_of_shorter_message"] = ok, errStr(verr), ok2
+					r.Violation("verifyza-wrong-on-message-of-2^29-bytes", d)
+				}
+			}
+			hk.Unmap(big)
+			r.Eval("wrappers:message-of-2^29+3-bytes")
+		} else {
+			r.Inconclusive("c13: cannot map 512 MiB of zero pages for the giant-message case")
+		}
+	}
 	r.Sample(hk.D{"kind": "ZA", "idlen": 8191, "px": hk.Hex(px0), "py": hk.Hex(py0)})
 
 	// ---- wrappers: Sign == SignZa == SignHashed(SM3(ZA||M)) on the same stream;
